@@ -36,7 +36,7 @@ func C09(r *core.Report) {
 	r.Floor("C09.R1", 4)
 	r.Floor("C09.R2", 25)
 	r.Floor("C09.R4", 8)
-	r.Floor("C09.R5", 2)
+	r.Floor("C09.R5", 1)
 }
 
 // c09ListingOrder: GetEpochNumbers returns a slice filled only from the keys of a map range
